@@ -29,6 +29,8 @@ pub struct Op {
 #[derive(Clone, Debug)]
 pub struct Spec {
     pub n: Uint,
+    /// the modulus handed to final_step: the sieve's input without its multiplier (n itself for constructed histories)
+    pub nfinal: Uint,
     pub p: u128,
     pub q: u128,
     pub fb_size: u32,
@@ -65,6 +67,7 @@ impl Spec {
     pub fn to_json(&self) -> Value {
         json!({
             "n": uint_dec(&self.n),
+            "n_final_step": uint_dec(&self.nfinal),
             "p": self.p.to_string(),
             "q": self.q.to_string(),
             "fb_size": self.fb_size,
@@ -80,6 +83,7 @@ impl Spec {
     pub fn from_json(v: &Value) -> Spec {
         Spec {
             n: parse_uint(v["n"].as_str().unwrap()),
+            nfinal: parse_uint(v["n_final_step"].as_str().unwrap_or(v["n"].as_str().unwrap())),
             p: v["p"].as_str().unwrap().parse().unwrap(),
             q: v["q"].as_str().unwrap().parse().unwrap(),
             fb_size: v["fb_size"].as_u64().unwrap() as u32,
@@ -411,6 +415,7 @@ pub fn gen_spec(rng: &mut Rng, tier: Tier) -> Spec {
     }
     Spec {
         n,
+        nfinal: n,
         p,
         q,
         fb_size,
@@ -419,6 +424,163 @@ pub fn gen_spec(rng: &mut Rng, tier: Tier) -> Spec {
         readers: rng.below(3) as usize,
         shape: shape.to_string(),
     }
+}
+
+/// One scenario in thirty-two replays a *harvested* history: the relations a real sieve (SIQS, MPQS or classical QS
+/// with single and double large primes forced on) handed to `RelationSet::add`, recorded by the cfg observer during
+/// a single-threaded `factor()` call and re-dealt here to concurrent clients in other orders (shuffled, reversed,
+/// doubles first), with some relations duplicated. Unlike the constructed histories these carry the shapes a sieve
+/// really produces: dozens of factors, large exponents of small primes, x close to n, the multiplier in n.
+pub fn is_harvested_scenario(idx: u64) -> bool {
+    idx % 32 == 7
+}
+
+pub fn gen_spec_harvested(rng: &mut Rng, tier: Tier) -> Option<Spec> {
+    use yamaquasi::relations::verif::AddEvent;
+    use yamaquasi::{Algo, Preferences};
+    let half = match tier {
+        Tier::Quick => rng.range(24, 40) as u32,
+        Tier::Thorough => rng.range(24, 52) as u32,
+    };
+    let p = gen_prime(rng, half);
+    let q = loop {
+        let extra = rng.below(4) as u32;
+        let q = gen_prime(rng, half + extra);
+        if q != p {
+            break q;
+        }
+    };
+    let n = Uint::from(p) * Uint::from(q);
+    let algo = *rng.pick(&[Algo::Siqs, Algo::Siqs, Algo::Mpqs, Algo::Qs]);
+    let d = match algo {
+        Algo::Qs => yamaquasi::params::qs_fb_size(n.bits(), false),
+        Algo::Mpqs => yamaquasi::params::mpqs_fb_size(n.bits(), false),
+        _ => yamaquasi::params::factor_base_size(&n),
+    }
+    .max(24);
+    let fb_req = (d * *rng.pick(&[1u32, 1, 2, 3])).min(1200);
+    let large_factor = *rng.pick(&[5u64, 20, 100, 400]);
+    let use_double = rng.chance(0.75);
+    type Ev = (Uint, usize, u64, Relation, Option<(u64, u64)>);
+    let log: Rc<RefCell<Vec<Ev>>> = Rc::new(RefCell::new(vec![]));
+    let log2 = log.clone();
+    simcore::probe::set_observer(Some(Box::new(move |tag, obj| {
+        if tag != "relset_add" {
+            return;
+        }
+        if let Some(ev) = obj.downcast_ref::<AddEvent>() {
+            let set = unsafe { &*ev.set };
+            let mut l = log2.borrow_mut();
+            if l.len() < 6000 {
+                l.push((set.n, set.fbsize, set.maxlarge, ev.added.clone(), ev.pq));
+            }
+        }
+    })));
+    let mut cfg = SimConfig::reference(rng.next_u64());
+    cfg.step_cap = 2_000_000;
+    cfg.wall_limit_ms = Some(10_000);
+    let (sim, _) = run_sim(cfg, move || {
+        let mut prefs = Preferences::default();
+        prefs.verbosity = Verbosity::Silent;
+        prefs.fb_size = Some(fb_req);
+        prefs.large_factor = Some(large_factor);
+        prefs.use_double = Some(use_double);
+        let _ = yamaquasi::factor(n, algo, &prefs);
+    });
+    simcore::probe::set_observer(None);
+    if sim.end != RunEnd::Completed {
+        return None;
+    }
+    let evs = log.borrow();
+    let (sn, sfb, sml) = match evs.first() {
+        Some(e) => (e.0, e.1, e.2),
+        None => return None,
+    };
+    // the factor base of the replayed store must be the one of the sieve
+    let fbase = FBase::new(Int::cast_from(sn), fb_req);
+    if fbase.len() != sfb {
+        return None;
+    }
+    let mut ops: Vec<Op> = evs
+        .iter()
+        .filter(|e| e.0 == sn && e.1 == sfb && e.2 == sml)
+        .map(|e| Op { rel: e.3.clone(), pq: e.4 })
+        .collect();
+    if ops.len() < 8 {
+        return None;
+    }
+    // a prefix of a history is a history: keep scenarios affordable
+    let cap = match tier {
+        Tier::Quick => rng.range(100, 700),
+        Tier::Thorough => rng.range(200, 4000),
+    } as usize;
+    ops.truncate(cap);
+    let order = rng.weighted(&[30, 30, 15, 25]);
+    match order {
+        0 => {} // sieve order
+        1 => {
+            // seeded shuffle
+            for i in (1..ops.len()).rev() {
+                let j = rng.below(i as u64 + 1) as usize;
+                ops.swap(i, j);
+            }
+        }
+        2 => ops.reverse(),
+        _ => {
+            // doubles first, then partials, then complete relations: the longest walks
+            ops.sort_by_key(|o| if o.pq.is_some() && o.rel.cofactor != 1 { 0 } else if o.rel.cofactor != 1 { 1 } else { 2 });
+        }
+    }
+    // duplicates
+    let ndup = ops.len() / *rng.pick(&[10usize, 20, 50]);
+    for _ in 0..ndup {
+        let k = rng.below(ops.len() as u64) as usize;
+        let at = rng.below(ops.len() as u64 + 1) as usize;
+        let o = ops[k].clone();
+        ops.insert(at, o);
+    }
+    // deal to clients in contiguous runs of random length
+    let w = rng.range(1, 8) as usize;
+    let mut clients: Vec<Vec<Op>> = vec![vec![]; w];
+    let mut it = ops.into_iter().peekable();
+    while it.peek().is_some() {
+        let c = rng.below(w as u64) as usize;
+        for _ in 0..rng.range(1, 12) {
+            match it.next() {
+                Some(o) => clients[c].push(o),
+                None => break,
+            }
+        }
+    }
+    clients.retain(|c| !c.is_empty());
+    Some(Spec {
+        n: sn,
+        nfinal: n,
+        p,
+        q,
+        fb_size: fb_req,
+        maxlarge: sml,
+        clients,
+        readers: rng.below(3) as usize,
+        shape: format!(
+            "harvested_{}_{}",
+            match algo {
+                Algo::Siqs => "siqs",
+                Algo::Mpqs => "mpqs",
+                _ => "qs",
+            },
+            ["sieve_order", "shuffled", "reversed", "doubles_first"][order]
+        ),
+    })
+}
+
+pub fn gen_any(rng: &mut Rng, tier: Tier, idx: u64) -> Spec {
+    if is_harvested_scenario(idx) {
+        if let Some(s) = gen_spec_harvested(rng, tier) {
+            return s;
+        }
+    }
+    gen_spec(rng, tier)
 }
 
 // ---------------------------------------------------------------------------------------------
@@ -590,7 +752,7 @@ pub fn run_store(spec: &Spec, cfg: SimConfig) -> RunOut {
         let divisors = if cycles.is_empty() {
             vec![]
         } else {
-            final_step(&s.n, &fbase, &cycles, Verbosity::Silent)
+            final_step(&s.nfinal, &fbase, &cycles, Verbosity::Silent)
         };
         StoreOut {
             cycles: cycles.len(),
@@ -628,12 +790,12 @@ fn judge(spec: &Spec, out: &RunOut) -> Vec<(String, String, String)> {
     }
     if let Some(o) = &out.out {
         for d in &o.divisors {
-            let ok = !d.is_zero() && !d.is_one() && *d < spec.n && (spec.n % *d).is_zero();
+            let ok = !d.is_zero() && !d.is_one() && *d < spec.nfinal && (spec.nfinal % *d).is_zero();
             if !ok {
                 v.push((
                     "final_step_proper_divisors".into(),
                     "oracle:bad_divisor".into(),
-                    format!("final_step returned {d}, not a divisor d of n={} with 1 < d < n", spec.n),
+                    format!("final_step returned {d}, not a divisor d of n={} with 1 < d < n", spec.nfinal),
                 ));
                 break;
             }
@@ -688,14 +850,18 @@ impl Family for RelstoreFamily {
 
     fn describe(&self, prop: &str, tier: Tier, seed: u64, idx: u64) -> Value {
         let mut rng = Rng::new(derive(seed, prop, idx, "scenario"));
-        gen_spec(&mut rng, tier).summary()
+        gen_any(&mut rng, tier, idx).summary()
     }
 
     fn run(&self, prop: &str, tier: Tier, seed: u64, idx: u64) -> Report {
         let mut rep = Report::new(idx);
         let mut rng = Rng::new(derive(seed, prop, idx, "scenario"));
-        let spec = gen_spec(&mut rng, tier);
+        let spec = gen_any(&mut rng, tier, idx);
         rep.sample = spec.summary();
+        if spec.shape.starts_with("harvested") {
+            rep.stat("scenarios_with_a_harvested_sieve_history", 1);
+            rep.stat(&format!("history_{}", spec.shape), 1);
+        }
         crate::common::phase(idx, "subruns");
         // sequential reference history: all operations by one client, in dealing order
         let mut seq = spec.clone();
